@@ -63,7 +63,7 @@ from nemoguardrails.rails.llm.options import (
     GenerationOptions,
     GenerationResponse,
 )
-from nemoguardrails.rails.llm.utils import get_history_cache_key
+from nemoguardrails.rails.llm.utils import get_events_history_cache_key
 from nemoguardrails.streaming import StreamingHandler
 from nemoguardrails.utils import get_or_create_event_loop, new_event_dict, new_uuid
 
@@ -475,7 +475,7 @@ class LLMRails:
             # of events.
             p = len(messages) - 1
             while p > 0:
-                cache_key = get_history_cache_key(messages[0:p])
+                cache_key = get_events_history_cache_key(messages[0:p])
                 if cache_key in self.events_history_cache:
                     events = self.events_history_cache[cache_key].copy()
                     break
@@ -772,7 +772,7 @@ class LLMRails:
             # If a state object is not used, then we use the implicit caching
             if state is None:
                 # Save the new events in the history and update the cache
-                cache_key = get_history_cache_key(messages + [new_message])
+                cache_key = get_events_history_cache_key(messages + [new_message])
                 self.events_history_cache[cache_key] = events
             else:
                 output_state = {"events": events}
